@@ -62,6 +62,13 @@ func main() {
 			terms = append(terms, runAppCase(*seed, i, rep, *profile, *trace)...)
 			rep.Cases++
 		}
+	case "params":
+		require, caseType, fn = "Params", "pcase", "pmismatches"
+		ta := NewTestApp(GenOpts{Time: time.Unix(1690000000, 0).UTC()})
+		for i := lo; i < hi; i++ {
+			terms = append(terms, runParamsCase(ta, *seed, i, rep, *profile))
+			rep.Cases++
+		}
 	case "sig":
 		require, caseType, fn = "Sig", "scase", "smismatches"
 		ta := NewTestApp(GenOpts{Time: time.Unix(1690000000, 0).UTC()})
